@@ -59,6 +59,7 @@ func propC03(w *World, r *Run) {
 	ruleStorageRefusal(w, r, "C03.c")
 	ruleLogsFromKeys(w, r, "C03.d")
 	ruleServeHTTP(w, r, "C03.e", "C03.e", "C03.e")
+	ruleEndpointHygiene(w, r, "C03.e")
 }
 
 func propC04(w *World, r *Run) {
@@ -89,6 +90,7 @@ func propC07(w *World, r *Run) {
 	ruleNotFoundExact(w, r, "C07.d")
 	ruleAdapter(w, r, "C07.e")
 	ruleNoLeakedTx(w, r, "C07.f")
+	ruleNoFalseSuccessAtEndpoint(w, r, a, "C07.h")
 }
 
 func propC08(w *World, r *Run) {
@@ -147,6 +149,7 @@ func propC05(w *World, r *Run) {
 	ruleImmut(w, r, "C05.f", immutCoreFields(w, r, "C05.f"))
 	ruleNoInplace(w, r, a, "C05.g")
 	ruleNoNestedStorage(w, r, a, "C05.h")
+	ruleNotFoundExact(w, r, "C05.i")
 }
 
 func propC06(w *World, r *Run) {
@@ -176,6 +179,8 @@ func propC10(w *World, r *Run) {
 	a := analyseUpdate(w, r)
 	ruleStatusTable(w, r, a, "C10.a")
 	ruleServeHTTP(w, r, "C10.b", "C10.c", "C10.e")
+	ruleEndpointHygiene(w, r, "C10.c")
+	ruleCommitBeforeAck(w, r, "C10.g")
 	ruleSentinelExhaustive(w, r, a, "C10.a")
 	ruleStrictInteger(w, r, "C10.f")
 	ruleParseBodyTotal(w, r, "C10.f", "C10.f")
@@ -302,6 +307,8 @@ func propC19(w *World, r *Run) {
 	ruleSumDBRaw(w, r, "C19.b")
 	ruleSizeNarrowing(w, r, "C19.c")
 	ruleServeHTTP(w, r, "C19.d", "C19.d", "C19.d")
+	ruleEndpointHygiene(w, r, "C19.d")
+	ruleLockset(w, r, "C19.i")
 	ruleCapsAndTimeouts(w, r, "C19.e", "C19.f")
 	ruleNeverGivesUp(w, r, "C19.f")
 	ruleInitBeforeUse(w, r, "C19.g")
